@@ -597,6 +597,86 @@ func c20Patterns(e *c20Env) {
 			}
 		}
 	})
+	// effects are the caller's code: a panic raised BY the effect of the first accepting pattern (or by a nested match
+	// inside it that accepts nothing) reaches the caller; no later pattern is consulted or applied
+	type effPanic struct{ tag string }
+	for _, nested := range []bool{false, true} {
+		for pos := 0; pos < 3; pos++ {
+			nested, pos := nested, pos
+			e.run("MatchFor(effect panics)", fmt.Sprintf("accepting pattern at #%d, nested=%v", pos, nested), true, func() string {
+				var applied []string
+				boom := func(x interface{}) interface{} {
+					applied = append(applied, "first-accepting")
+					if nested {
+						return fpgo.Either(x, fpgo.InCaseOfKind(reflect.Bool, func(interface{}) interface{} { return "inner" })) // accepts nothing: panics
+					}
+					panic(effPanic{"from the effect"})
+				}
+				never := func(x interface{}) interface{} { applied = append(applied, "rejecting"); return "rejecting" }
+				later := func(tag string) func(interface{}) interface{} {
+					return func(x interface{}) interface{} { applied = append(applied, tag); return tag }
+				}
+				var pats []fpgo.Pattern
+				for i := 0; i < pos; i++ {
+					pats = append(pats, fpgo.InCaseOfKind(reflect.String, never))
+				}
+				pats = append(pats, fpgo.InCaseOfKind(reflect.Int, boom), fpgo.InCaseOfEqual(5, later("equal")), fpgo.InCaseOfKind(reflect.Int, later("kind-again")), fpgo.Otherwise(later("otherwise")))
+				var got interface{}
+				pv, _ := core.Catch(func() {
+					if pos%2 == 0 {
+						got = fpgo.DefPattern(pats...).MatchFor(5)
+					} else {
+						got = fpgo.Either(5, pats...)
+					}
+				})
+				if pv == nil {
+					return fmt.Sprintf("the effect of the first accepting pattern panicked, but the match returned %v (effects applied: %v)", got, applied)
+				}
+				if _, mine := pv.(effPanic); !nested && !mine {
+					return fmt.Sprintf("the caller received the panic %v instead of the effect's own panic value", pv)
+				}
+				if len(applied) != 1 {
+					return fmt.Sprintf("effects applied: %v, want only the first accepting pattern's", applied)
+				}
+				return ""
+			})
+		}
+	}
+	// Equal patterns test Go equality (==): an Equal pattern holding pointer p accepts p itself, not another pointer
+	// with an equal pointee (probes that survive MatchFor's dereferencing of pointers to structs: *int, *string, **T,
+	// structs/arrays with pointer fields)
+	{
+		a1, a2 := 7, 7
+		s1, s2 := "x", "x"
+		p1, p2 := &a1, &a2
+		type holder struct{ P *int }
+		type eqCase struct {
+			name         string
+			held         any
+			same, twin   any
+			twinIsPtrStr bool
+		}
+		for _, ec := range []eqCase{
+			{"*int", &a1, &a1, &a2, false}, {"*string", &s1, &s1, &s2, false}, {"**int", &p1, &p1, &p2, false},
+			{"struct with a pointer field", holder{&a1}, holder{&a1}, holder{&a2}, false}, {"[1]*int", [1]*int{&a1}, [1]*int{&a1}, [1]*int{&a2}, false},
+		} {
+			ec := ec
+			e.run("InCaseOfEqual(identity)", ec.name, true, func() string {
+				pats := []fpgo.Pattern{fpgo.InCaseOfEqual(ec.held, func(interface{}) interface{} { return "equal" }), fpgo.Otherwise(func(interface{}) interface{} { return "otherwise" })}
+				if got := fpgo.Either(ec.same, pats...); got != "equal" {
+					return fmt.Sprintf("probe == held value (%s): chose %v, want the Equal pattern", ec.name, got)
+				}
+				if got := fpgo.DefPattern(pats...).MatchFor(ec.twin); got != "otherwise" {
+					return fmt.Sprintf("probe is a DIFFERENT %s with equal contents (held != probe under ==): chose %v, want Otherwise", ec.name, got)
+				}
+				pv, _ := core.Catch(func() { fpgo.Either(ec.twin, pats[0]) })
+				if pv == nil {
+					return fmt.Sprintf("Either(different %s with equal contents, only an Equal pattern) did not panic although nothing accepts", ec.name)
+				}
+				return ""
+			})
+		}
+	}
 	// NewCompData returns a value iff its arguments match the declared type; sum types may be nested in every grouping
 	pI, pSI, pB, pF := fpgo.DefProduct(reflect.Int), fpgo.DefProduct(reflect.String, reflect.Int), fpgo.DefProduct(reflect.Bool), fpgo.DefProduct(reflect.Float64)
 	sumD := c20SumModel{products: [][]reflect.Kind{{reflect.Int}, {reflect.String, reflect.Int}, {reflect.Bool}, {reflect.Float64}}, hasNil: true}
@@ -889,7 +969,7 @@ func init() {
 			return core.Meta{
 				Level: "exploration",
 				Rule: "Compose/Pipe: all 5460 function lists of length 1..6 over 4 distinguishable non-commuting functions x 3 argument tuples, output compared with the fold, Compose(fs)=Pipe(reverse fs), every regrouping; adapters with recording functions; Trampoline with scripted done/error at step 1..12; CurryDef sequentially (1..6 calls x MarkDone position) and concurrently (2..8 goroutines, unique chunks, chain oracle; repeated in the -race build); " +
-					"patterns: every permutation of every subset of the five pattern kinds (326 lists) x 3 parameterisations x ~40 probe values of every kind through MatchFor/Either against the harness' own acceptance model (first accepting pattern's effect, applied to the value, panic iff none); NewCompData and InCaseOfSumType against the declared type, for flat sums and for 7 nested groupings of the same five alternatives (nested first / middle / last, two levels, two nested, singletons); CurryDef whose function reads its own Result()/IsDone() while invoked (1..16 goroutines, termination by the stuck detector). distinct_nontrivial = enumerated cases (distinct by construction) + distinct concurrent scenarios",
+					"patterns: every permutation of every subset of the five pattern kinds (326 lists) x 3 parameterisations x ~40 probe values of every kind through MatchFor/Either against the harness' own acceptance model (first accepting pattern's effect, applied to the value, panic iff none); effects that panic (directly or through a nested match that accepts nothing) at every position: the panic reaches the caller and no later pattern is applied; Equal patterns holding pointers / structs with pointer fields (identity, not deep equality); NewCompData and InCaseOfSumType against the declared type, for flat sums and for 7 nested groupings of the same five alternatives (nested first / middle / last, two levels, two nested, singletons); CurryDef whose function reads its own Result()/IsDone() while invoked (1..16 goroutines, termination by the stuck detector). distinct_nontrivial = enumerated cases (distinct by construction) + distinct concurrent scenarios",
 				Assumptions: []string{"MatchFor replaces a non-nil pointer-to-struct probe by its pointee before matching and applying (pinned, DESIGN.md C20)",
 					"nil values incl. typed nil pointers never match a Kind pattern; a CompData value is matched through its objects only",
 					"Equal patterns hold comparable values", "Calls concurrent with MarkDone may or may not be counted; Calls begun after MarkDone returned must not invoke fn"},
